@@ -476,6 +476,11 @@ def gen(desc):
                 seq = list(rng.choice(R["seqs"]))
                 pool += chain_strings(seq, desc["seed"], 0)
             pool += [rng.choice(REAL_MODELS)]
+            if rng.random() < 0.5:
+                # inventories spell one model in several ways: case variants are DIFFERENT model strings (the family
+                # patterns of the hardware table are case sensitive), served by the same provider
+                m = rng.choice(pool)
+                pool += [f(m) for f in rng.sample([str.lower, str.upper, str.title, str.swapcase], 2)]
             hist = [[rng.choice(pool), rng.choice(SOFTS)] for _ in range(rng.randint(3, 8))]
             yield dict(kind="hist", history=hist)
 
